@@ -330,6 +330,118 @@ func readBeforeDef(info *types.Info, g *cfg.CFG, entry *cfg.Block, loop ast.Stmt
 	return nil
 }
 
+// sharedAcrossItems: a reference-typed local (pointer, map, slice) created fresh outside a loop
+// that the loop body both writes through (v.f = …, v[k] = …) and hands on as a value (into a
+// composite literal, a call, another variable): every item then holds the same object and
+// sees the last item's writes.
+func sharedAcrossItems(p *Prog, fn *FuncInfo) []carried {
+	if fn.Decl.Body == nil {
+		return nil
+	}
+	info := fn.Info()
+	var out []carried
+	ast.Inspect(fn.Decl.Body, func(n ast.Node) bool {
+		var body *ast.BlockStmt
+		var loop ast.Stmt
+		switch s := n.(type) {
+		case *ast.RangeStmt:
+			body, loop = s.Body, s
+		case *ast.ForStmt:
+			body, loop = s.Body, s
+		}
+		if loop == nil {
+			return true
+		}
+		writes := map[*types.Var]ast.Node{}
+		escapes := map[*types.Var]ast.Node{}
+		cand := func(x ast.Expr) *types.Var {
+			v, ok := identObj(info, x).(*types.Var)
+			if !ok || v.IsField() || v.Pkg() == nil || v.Parent() == v.Pkg().Scope() {
+				return nil
+			}
+			if v.Pos() >= loop.Pos() && v.Pos() < loop.End() {
+				return nil
+			}
+			if v.Pos() < fn.Decl.Pos() || v.Pos() >= fn.Decl.End() {
+				return nil
+			}
+			switch v.Type().Underlying().(type) {
+			case *types.Pointer, *types.Map:
+			default:
+				return nil
+			}
+			// created fresh, once
+			ds := varDefs(fn, v)
+			if len(ds) != 1 || ds[0].rhs == nil {
+				return nil
+			}
+			r := ast.Unparen(ds[0].rhs)
+			if u, ok := r.(*ast.UnaryExpr); ok && u.Op == token.AND {
+				if _, isLit := ast.Unparen(u.X).(*ast.CompositeLit); isLit {
+					return v
+				}
+			}
+			if _, ok := isBuiltinCall(info, r, "new"); ok {
+				return v
+			}
+			if _, ok := isBuiltinCall(info, r, "make"); ok {
+				return v
+			}
+			return nil
+		}
+		ast.Inspect(body, func(k ast.Node) bool {
+			switch t := k.(type) {
+			case *ast.AssignStmt:
+				for _, l := range t.Lhs {
+					switch lx := ast.Unparen(l).(type) {
+					case *ast.SelectorExpr:
+						if v := cand(lx.X); v != nil {
+							writes[v] = t
+						}
+					case *ast.IndexExpr:
+						if v := cand(lx.X); v != nil {
+							writes[v] = t
+						}
+					}
+				}
+				for _, r := range t.Rhs {
+					if v := cand(r); v != nil {
+						escapes[v] = t
+					}
+				}
+			case *ast.CompositeLit:
+				for _, e := range t.Elts {
+					x := e
+					if kv, ok := e.(*ast.KeyValueExpr); ok {
+						x = kv.Value
+					}
+					if v := cand(x); v != nil {
+						escapes[v] = t
+					}
+				}
+			case *ast.CallExpr:
+				if ac, ok := isBuiltinCall(info, t, "append"); ok {
+					for _, a := range ac.Args[1:] {
+						if v := cand(a); v != nil {
+							escapes[v] = t
+						}
+					}
+				}
+			}
+			return true
+		})
+		for v, w := range writes {
+			if e, ok := escapes[v]; ok {
+				out = append(out, carried{v, loop, e})
+				_ = w
+			}
+		}
+		return true
+	})
+	sort.Slice(out, func(i, j int) bool { return out[i].read.Pos() < out[j].read.Pos() })
+	return out
+}
+
 // ruleItemIndependent: one obligation per (loop variable) pair examined in fn;
 // returns how many pairs there were.
 func ruleItemIndependent(c *Ctx, rule string, fn *FuncInfo, what string) int {
@@ -343,6 +455,15 @@ func ruleItemIndependent(c *Ctx, rule string, fn *FuncInfo, what string) int {
 		done[f.v] = true
 		c.Bad(rule, fn.Name+": "+what+": "+f.v.Name()+" is not carried from one item to the next", p.Pos(f.read), fn.Key(),
 			"assigned in the iteration before it is read", "declared outside the loop ("+p.PosOf(f.v.Pos())+"), assigned inside it, read at "+p.Pos(f.read)+" on a path with no assignment in the same iteration")
+	}
+	for _, f := range sharedAcrossItems(p, fn) {
+		if done[f.v] {
+			continue
+		}
+		done[f.v] = true
+		found = append(found, f)
+		c.Bad(rule, fn.Name+": "+what+": "+f.v.Name()+" is not shared between the items", p.Pos(f.read), fn.Key(),
+			"a fresh object per item", "created once outside the loop ("+p.PosOf(f.v.Pos())+"), written through inside it and handed on at "+p.Pos(f.read)+": every item holds the same object")
 	}
 	if len(found) == 0 {
 		c.OK(rule, fn.Name+": "+what+": no scalar is carried from one item to the next", p.Pos(fn.Decl), fn.Key(),
